@@ -50,14 +50,27 @@ def f_single(rng, label, value):
     return [case_label(rng, label), 0, value, []]
 
 
+INDENTS = ['', '', ' ', '   ', ' ' * 10]
+
+
+def item_line(rng, text):
+    """a continuation line of a list-valued field: paragraph-text layout (kind 0) or free layout (kind 3: any further
+    indentation, a leading full stop allowed)"""
+    if text.startswith('.') or rng.random() < 0.4:
+        return [3, rng.choice(INDENTS) + text]
+    return [0, text]
+
+
 def f_list(rng, label, pool):
+    pool = pool + ['.hidden', '.', '..', '.git/*']
     first = ' '.join(rng.choice(pool) for _ in range(rng.choice((1, 1, 2, 3))))
-    conts = [[0, ' '.join(rng.choice(pool) for _ in range(rng.choice((1, 2))))] for _ in range(rng.choice((0, 0, 1, 2)))]
+    conts = [item_line(rng, ' '.join(rng.choice(pool) for _ in range(rng.choice((1, 2))))) for _ in range(rng.choice((0, 0, 1, 2)))]
     return [case_label(rng, label), 1, first, conts]
 
 
 def f_copyright(rng):
-    return [case_label(rng, 'Copyright'), 2, rng.choice(STATEMENTS), [[0, rng.choice(STATEMENTS)] for _ in range(rng.choice((0, 0, 1, 3)))]]
+    pool = STATEMENTS + ['. dotted holder', '.']
+    return [case_label(rng, 'Copyright'), 2, rng.choice(STATEMENTS), [item_line(rng, rng.choice(pool)) for _ in range(rng.choice((0, 0, 1, 3)))]]
 
 
 CONTACTS = ['John Doe <john@example.org>', 'Jane Roe <jane@example.org>, J. Hacker <j@x.org>', 'http://example.org/contact', 'John Doe <john@example.org> ,',
@@ -75,6 +88,11 @@ def f_license(rng, with_text):
 def f_text(rng, label):
     first = rng.choice(('', '', rng.choice(PARA_LINES)))
     b = block(rng)
+    if first and b and rng.random() < 0.4:
+        # a text that starts on the declaration line may go on with any kind of line
+        b[0] = rng.choice(([1, ''], [2, rng.choice(VERB_LINES)]))
+        while b and b[-1][0] == 1:
+            b.pop()
     if not first and not b:
         b = [[0, rng.choice(PARA_LINES)]]
     return [case_label(rng, label), 4, first, b]
@@ -133,7 +151,7 @@ def doc(rng, allow_multiline_extra=True):
 
 
 def raw_line(l):
-    return {0: ' ' + l[1], 1: ' .', 2: '  ' + l[1]}[l[0]]
+    return {0: ' ' + l[1], 1: ' .', 2: '  ' + l[1], 3: ' ' + l[1]}[l[0]]
 
 
 def render(paras, seps):
@@ -161,7 +179,7 @@ def valid_input(op, inp):
             for label, kind, first, conts in p:
                 assert isinstance(label, str) and isinstance(first, str) and kind in (0, 1, 2, 3, 4, 5, 6)
                 for k, c in conts:
-                    assert k in (0, 1, 2) and isinstance(c, str)
+                    assert k in (0, 1, 2, 3) and isinstance(c, str)
         return (text == render(paras, seps) or not paras) and all(isinstance(n, int) and n >= 1 for n in seps)
     except Exception:
         return False
